@@ -160,7 +160,14 @@ class Ctx:
             for idx, case in enumerate(gen()):
                 if (idx + seed) % W != wid:
                     continue
-                obs = run_case(case, rec)
+                try:
+                    obs = run_case(case, rec)
+                except HarnessError as e:
+                    # an exploration that could not be carried through (a schedule that does not replay, an execution cap): not fatal
+                    # at once - a genuine violation found in another case is still reported (exit 1); without one the run ends as
+                    # a harness ERROR (exit 2), never as a verdict
+                    rec.nondet.append('case %s: %s' % (jdump(case)[:300], e))
+                    continue
                 rec.evaluations += 1
                 n += 1
                 if (idx + seed) % recheck_every == 0:
